@@ -55,6 +55,9 @@ type Config struct {
 	MockSafe bool
 	// TSSafe avoids shapes the TS server generator is known not to load (probe worlds only).
 	TSSafe bool
+	// AnnService adds a service with one POST method per annotated message type (request and
+	// response are that type), so every custom codec sits at the top level of some call.
+	AnnService bool
 }
 
 // Feature names.
@@ -239,6 +242,15 @@ func World(cfg Config) *spec.World {
 	for i := 0; i < nSvc; i++ {
 		x.service(svcNames[i], i)
 	}
+	if cfg.AnnService && len(x.annMsgs) > 0 {
+		s := &spec.Service{Name: "Annotated"}
+		bp := "/ann"
+		s.BasePath = &bp
+		for _, n := range x.annMsgs {
+			s.Methods = append(s.Methods, &spec.Method{Name: "Echo" + n, In: x.fq(n), Out: x.fq(n), HasConfig: true, Verb: "POST", Path: "/" + strings.ToLower(n)})
+		}
+		x.f.Services = append(x.f.Services, s)
+	}
 	return x.w
 }
 
@@ -359,8 +371,11 @@ func (x *g) bodyField(m *spec.Message, taken map[string]bool, num int32) *spec.F
 		opts = append(opts, ann, ann)
 	}
 	pick(x.r, opts)()
-	// cardinality
+	// cardinality (annotated types stay singular: repeated / map-of-annotated combinations
+	// hit generator compile errors that belong to the not-applicable property C13)
+	isAnn := strings.Contains(f.TypeName, ".Ann")
 	switch {
+	case isAnn:
 	case x.has(FRepeated) && x.r.chance(1, 4):
 		f.Card = "repeated"
 	case x.has(FMap) && x.r.chance(1, 5):
